@@ -7,7 +7,7 @@ Local Open Scope N_scope.
 Theorem sections_all :
   forall (E D : list N -> list N -> list N),
   (forall k b, length (E k b) = 16%nat) -> (forall k b, length b = 16%nat -> D k (E k b) = b) ->
-  forall counted x file, wf_sbin x -> (counted = true \/ has_sha (x_flags x) = false) -> build21_gen E counted x = Ok file ->
+  forall x file, wf_sbin x -> build21_gen E true x = Ok file ->
   exists r, rom21 E D (x_sigsize x) (x_kek x) file = Some r /\
             length (r_secs r) = length (x_secs x) /\ map fst (r_secs r) = map s_uid (x_secs x).
 Proof. exact sections_all_thm. Qed.
